@@ -54,6 +54,36 @@ def termMatches (s : Scenario) (owner : Pod) (t : PodAff) (q : Pod) : Bool :=
 def spreadMatches (owner : Pod) (c : Spread) (q : Pod) : Bool :=
   q.ns == owner.ns && selOK c.matchLabels (c.matchExprs ++ keyExprs owner c.matchLabelKeys) q.labels
 
+/-! ### Cluster-level default topology spread constraints
+
+The kube-scheduler's PodTopologySpread plugin (`defaultingType: List`) applies the configured default constraints to every pod
+that has NO topology spread constraint of its own, with a label selector deduced for THAT pod (`helper.DefaultSelector`): the
+equality selectors of all Services of the pod's namespace that select the pod (a Service without selector selects nothing)
+merged, AND-ed with the selector of the pod's controller when that is a ReplicaSet (StatefulSet, ReplicationController) that
+exists.  A pod for which nothing can be deduced gets no default constraint. -/
+
+def defaultSelector (s : Scenario) (p : Pod) : Option (Labels × List KExpr) :=
+  let selecting := s.services.filter (fun sv => sv.ns == p.ns &&
+    match sv.selector with
+    | none => false
+    | some sel => sel.all (fun (k, v) => p.labels.lookup k == some v))
+  -- every pair of a selecting Service is one of the pod's own labels, so merging cannot conflict
+  let fromServices : Labels := (selecting.flatMap (fun sv => sv.selector.getD [])).foldl
+    (fun acc (kv : String × String) => if acc.any (fun x => x.1 == kv.1) then acc else acc ++ [kv]) []
+  let fromOwner : List KExpr :=
+    if p.owner == "" || p.daemon then [] else
+    match s.replicaSets.find? (fun rs => rs.ns == p.ns && rs.name == p.owner) with
+    | none => []
+    | some rs => rs.selector.matchLabels.map (fun (k, v) => ({ key := k, op := .in_, vals := [v] } : KExpr)) ++ rs.selector.matchExprs
+  if fromServices.isEmpty && fromOwner.isEmpty then none else some (fromServices, fromOwner)
+
+/-- the topology spread constraints that govern pod `p`: its own, or else the cluster defaults with the selector deduced for it -/
+def effectiveSpreads (s : Scenario) (p : Pod) : List Spread :=
+  if !p.spreads.isEmpty || s.defaultSpreads.isEmpty then p.spreads else
+  match defaultSelector s p with
+  | none => []
+  | some (ml, es) => s.defaultSpreads.map (fun c => { c with matchLabels := ml, matchExprs := es, matchLabelKeys := [] })
+
 def sortStrings (l : List String) : List String := (l.toArray.qsort (· < ·)).toList
 
 /-- canonical form of a selector (as a set of requirements), to compare two selectors for "the same constraint" -/
@@ -114,8 +144,8 @@ def shareDomain (s : Scenario) (a b : Placed) (k : String) : Bool :=
 
 /-! ### Required pod anti-affinity (both directions, against running pods too) -/
 
-def antiAffinityOK (s : Scenario) (all : List Placed) : Option String :=
-  firstSome (all.map (fun a =>
+def antiAffinityOK (s : Scenario) (all : List Placed) (carrier : Placed → Bool := fun _ => true) : Option String :=
+  firstSome ((all.filter carrier).map (fun a =>
     firstSome ((a.pod.affinity.filter (fun t => t.anti && t.required)).map (fun t =>
       match all.find? (fun b => b.pod.name != a.pod.name && (a.isNew || b.isNew) &&
             termMatches s a.pod t b.pod && shareDomain s a b t.topologyKey) with
@@ -152,6 +182,40 @@ def canUseDomainOf (s : Scenario) (p : Pod) (q : Placed) (k : String) : Bool :=
     else (domains s q k).any (fun d => canUseDomain s p k d)
   | .claim _ _ => true
 
+/-- do the required node-affinity terms `terms` (OR-ed) admit the place the pod was put?  A node: its labels satisfy a term.
+    A NodeClaim: some launch it still allows does (labels the launch does not determine - custom labels materialised from the
+    claim's requirements - are read generously: any value the requirement admits).  Only used to CLASSIFY violations. -/
+def placeAdmits (s : Scenario) (a : Placed) (terms : List (List KExpr)) : Bool :=
+  match a.place with
+  | .node n => requiredOK (nodeLabels s n) terms
+  | .claim _ c =>
+    match s.pool? c.pool with
+    | none => false
+    | some pl =>
+      terms.isEmpty || (c.its.filterMap s.it?).any (fun it =>
+        (it.offerings.filter (fun o => o.available && offeringCompatible c.reqs o)).any (fun o =>
+          let ls := launchLabels' pl it o
+          terms.any (fun t => t.all (fun e =>
+            let key := normalizeKey e.key
+            match ls.lookup key with
+            | some v => k8sMatch e.op e.vals (some v)
+            | none =>
+              match c.reqs.lookup key with
+              | none => k8sMatch e.op e.vals none
+              | some r =>
+                if r.complement then true
+                else r.values.any (fun v => k8sMatch e.op e.vals (some v)) || (r.values.isEmpty && k8sMatch e.op e.vals none)))))
+
+/-- like `canUseDomainOf`, but a pod on a NodeClaim whose domain is determined is judged by that domain (classification only) -/
+def canUseDeterminedDomainOf (s : Scenario) (p : Pod) (q : Placed) (k : String) : Bool :=
+  match q.place with
+  | .node _ => canUseDomainOf s p q k
+  | .claim _ _ =>
+    if k == "kubernetes.io/hostname" then true else
+    match domains s q k with
+    | [d] => canUseDomain s p k d
+    | _ => true
+
 /-- every domain the pod's node could end up in certainly holds another pod the term selects
     (a pod on the same node / NodeClaim, or one whose domain is determined and equal) -/
 def certainMatch (s : Scenario) (all : List Placed) (a : Placed) (t : PodAff) : Bool :=
@@ -179,8 +243,12 @@ def affinityOK (s : Scenario) (all : List Placed) : Option String :=
         -- CLASSIFIES (never excuses): the pod has several OR-ed required node-affinity terms and under at least one of them
         -- alone it cannot use the domain `b` runs in.  Karpenter schedules the pod as if it had only the term it is currently
         -- trying, so while trying such a term it does not see `b` and lets the pod start a domain of its own.
+        -- Narrow reading of that finding: SOME single term that admits the pod's own placement (the one Karpenter was trying
+        -- when it placed the pod) leaves, read alone, no running matching pod in a domain the pod can use.  If under every
+        -- term that admits the placement a running match stays usable, the violation is not that finding.
         let orTerms := a.pod.required.length ≥ 2 &&
-          a.pod.required.any (fun term => !canUseDomainOf s { a.pod with required := [term] } b k)
+          a.pod.required.any (fun term => placeAdmits s a [term] &&
+            others.all (fun b' => b'.isNew || !canUseDomainOf s { a.pod with required := [term] } b' k))
         let tag := if orTerms then "affinity-or-terms" else "affinity"
         some s!"{tag}: {a.pod.name} (term on {k}) started a new domain although {b.pod.name} was running in a domain it can use"
       | none =>
@@ -188,7 +256,14 @@ def affinityOK (s : Scenario) (all : List Placed) : Option String :=
           termKey s b.pod t' == termKey s a.pod t)
         match all.find? (fun b => b.isNew && b.pod.name != a.pod.name && sameTerm b && termMatches s a.pod t b.pod &&
             !certainMatch s all b t) with
-        | some b => some s!"affinity: {a.pod.name} and {b.pod.name} (same self-selecting term on {k}) each started their own domain: {domains s a k} / {domains s b k}"
+        | some b =>
+          -- CLASSIFIES (never excuses): the same finding between two pods of ONE pass.  One of the two has several OR-ed
+          -- required node-affinity terms and, read with a single term that admits its own placement (the one Karpenter was
+          -- trying), cannot use the domain the other one started - so Karpenter did not see that match and bootstrapped.
+          let blind (x y : Placed) : Bool := x.pod.required.length ≥ 2 &&
+            x.pod.required.any (fun term => placeAdmits s x [term] && !canUseDeterminedDomainOf s { x.pod with required := [term] } y k)
+          let tag := if blind a b || blind b a then "affinity-or-terms" else "affinity"
+          some s!"{tag}: {a.pod.name} and {b.pod.name} (same self-selecting term on {k}) each started their own domain: {domains s a k} / {domains s b k}"
         | none => none))))
 
 /-! ### Topology spread (DoNotSchedule) -/
@@ -240,19 +315,79 @@ def eligibleDomains (s : Scenario) (all : List Placed) (p : Pod) (k : String) (h
 /-- "among the pods that carry it": a pod counts for a constraint if the constraint's selector matches it AND it carries
     the same DoNotSchedule constraint (same topology key and the same effective selector, i.e. after `matchLabelKeys`
     contributed each carrier's own values: pods of another revision carry ANOTHER constraint) itself -/
-def carries (owner : Pod) (b : Placed) (c : Spread) : Bool :=
+def carries (s : Scenario) (owner : Pod) (b : Placed) (c : Spread) : Bool :=
   spreadMatches owner c b.pod &&
-  b.pod.spreads.any (fun c' => c'.doNotSchedule && c'.topologyKey == c.topologyKey && spreadKey b.pod c' == spreadKey owner c &&
+  (effectiveSpreads s b.pod).any (fun c' => c'.doNotSchedule && c'.topologyKey == c.topologyKey && spreadKey b.pod c' == spreadKey owner c &&
     c'.maxSkew == c.maxSkew && c'.minDomains == c.minDomains && c'.nodeAffinityHonor == c.nodeAffinityHonor &&
     c'.nodeTaintsHonor == c.nodeTaintsHonor)
 
+/-- The skew verdict for the new pod `a`, its DoNotSchedule constraint `c` (not on hostname) and its determined domain `d`.
+    `countTerms` are the required node-affinity terms read for "which nodes (and the pods on them) count" and `minTerms`
+    those read for "over which domains is the global minimum taken" (node inclusion policy Honor); the specification
+    proper reads the pod's own terms for both.  `some (count, domains, min, skew)` = maxSkew exceeded. -/
+def spreadExcess (s : Scenario) (all : List Placed) (a : Placed) (c : Spread) (d : String)
+    (countTerms minTerms : List (List KExpr)) (strictClaims : Bool := false) : Option (Nat × List String × Nat × Nat) :=
+  let k := c.topologyKey
+  let honor := c.nodeAffinityHonor.getD true
+  let honorT := c.nodeTaintsHonor.getD false
+  let podC : Pod := { a.pod with required := countTerms }
+  let podM : Pod := { a.pod with required := minTerms }
+  let eligC := (eligibleDomains s all podC k honor honorT)
+  let eligC := if eligC.contains d then eligC else d :: eligC
+  let elig := (eligibleDomains s all podM k honor honorT)
+  let elig := if elig.contains d then elig else d :: elig
+  -- node inclusion policies: pods on nodes that do not match the pod's own node selector / required node affinity
+  -- (policy Honor, the default) or whose taints it does not tolerate (policy Honor, not the default) do not count
+  let nodeCounts (b : Placed) : Bool :=
+    match b.place with
+    | .node n =>
+      (!honor || (nodeSelectorOK (nodeLabels s n) podC.nodeSelector && requiredOK (nodeLabels s n) podC.required)) &&
+      (!honorT || (untolerated a.pod.tolerations (objectTaints s n)).isNone)
+    | .claim _ cl =>
+      -- (when re-judging for a classification, `strictClaims`: the NodeClaim itself must allow a launch that satisfies the terms)
+      (!honor || ((domains s b k).all (fun d => eligC.contains d) && (!strictClaims || placeAdmits s b podC.required))) &&
+      (!honorT || (untolerated a.pod.tolerations cl.taints).isNone)
+  let count (dd : String) (onlyOld : Bool) : Nat :=
+    (all.filter (fun b => (!onlyOld || !b.isNew) && spreadMatches a.pod c b.pod && domains s b k == [dd] && nodeCounts b)).length
+  let minNow := match elig.map (fun dd => count dd false) with
+    | [] => 0
+    | x :: xs => xs.foldl min x
+  -- minDomains: the number of eligible domains also includes the domains of in-flight NodeClaims (no Node object yet,
+  -- but about to join exactly like the NodeClaims this pass creates)
+  let inflight := (s.nodes.filter (fun n => !n.deleting && n.stage == "claim")).filterMap (fun n =>
+    if (!honor || (nodeSelectorOK (nodeLabels s n) podM.nodeSelector && requiredOK (nodeLabels s n) podM.required)) &&
+       (!honorT || (untolerated a.pod.tolerations (nodeTaints s n)).isNone) then (nodeLabels s n).lookup k else none)
+  let numDomains := (elig ++ inflight).eraseDups.length
+  let minNow := match c.minDomains with
+    | some md => if numDomains < md then 0 else minNow
+    | none => minNow
+  let skewNow := count d false - minNow
+  -- the skew that was already there before this pass is not the scheduler's doing
+  let minOld := match elig.map (fun dd => count dd true) with
+    | [] => 0
+    | x :: xs => xs.foldl min x
+  let skewOld := count d true - minOld
+  -- Kubernetes counts every pod the selector matches, but only constrains the pods that carry the constraint: matching
+  -- pods that this pass put into `d` WITHOUT the same constraint, or with another node selector / affinity (their own skew
+  -- is computed over other eligible domains), may have arrived after `a` and are slack
+  let sibling (b : Placed) : Bool := carries s a.pod b c && toString (repr b.pod.nodeSelector) == toString (repr a.pod.nodeSelector) &&
+    toString (repr b.pod.required) == toString (repr a.pod.required) &&
+    toString (repr b.pod.tolerations) == toString (repr a.pod.tolerations)
+  let slack := (all.filter (fun b => b.isNew && spreadMatches a.pod c b.pod && !sibling b && domains s b k == [d])).length
+  if skewNow > max c.maxSkew skewOld + slack then some (count d false, elig, minNow, skewNow) else none
+
+/-- the non-empty suffixes of a list -/
+def suffixes : List α → List (List α)
+  | [] => []
+  | x :: xs => (x :: xs) :: suffixes xs
+
 def spreadOK (s : Scenario) (all : List Placed) : Option String :=
   firstSome ((all.filter (·.isNew)).map (fun a =>
-    firstSome ((a.pod.spreads.filter (·.doNotSchedule)).map (fun c =>
+    firstSome (((effectiveSpreads s a.pod).filter (·.doNotSchedule)).map (fun c =>
       let k := c.topologyKey
       if k == "kubernetes.io/hostname" then
         -- hostname: every new node is a fresh domain, the global minimum is 0
-        let here := (all.filter (fun b => samePlace a b && spreadMatches a.pod c b.pod && (carries a.pod b c || !b.isNew))).length
+        let here := (all.filter (fun b => samePlace a b && spreadMatches a.pod c b.pod && (carries s a.pod b c || !b.isNew))).length
         let before := (all.filter (fun b => !b.isNew && samePlace a b && spreadMatches a.pod c b.pod)).length
         if here > max c.maxSkew (before + 1) && here > c.maxSkew then
           some s!"spread: {here} matching pods on the node of {a.pod.name} exceed maxSkew {c.maxSkew} on hostname"
@@ -260,55 +395,33 @@ def spreadOK (s : Scenario) (all : List Placed) : Option String :=
       else
       match domains s a k with
       | [d] =>
-        let honor := c.nodeAffinityHonor.getD true
-        let elig := (eligibleDomains s all a.pod k honor (c.nodeTaintsHonor.getD false))
-        let elig := if elig.contains d then elig else d :: elig
-        -- node inclusion policies: pods on nodes that do not match the pod's own node selector / required node affinity
-        -- (policy Honor, the default) or whose taints it does not tolerate (policy Honor, not the default) do not count
-        let honorT := c.nodeTaintsHonor.getD false
-        let nodeCounts (b : Placed) : Bool :=
-          match b.place with
-          | .node n =>
-            (!honor || (nodeSelectorOK (nodeLabels s n) a.pod.nodeSelector && requiredOK (nodeLabels s n) a.pod.required)) &&
-            (!honorT || (untolerated a.pod.tolerations (objectTaints s n)).isNone)
-          | .claim _ cl =>
-            (!honor || (domains s b k).all (fun d => elig.contains d)) && (!honorT || (untolerated a.pod.tolerations cl.taints).isNone)
-        let count (dd : String) (onlyOld : Bool) : Nat :=
-          (all.filter (fun b => (!onlyOld || !b.isNew) && spreadMatches a.pod c b.pod && domains s b k == [dd] && nodeCounts b)).length
-        let minNow := match elig.map (fun dd => count dd false) with
-          | [] => 0
-          | x :: xs => xs.foldl min x
-        -- minDomains: the number of eligible domains also includes the domains of in-flight NodeClaims (no Node object yet,
-        -- but about to join exactly like the NodeClaims this pass creates)
-        let inflight := (s.nodes.filter (fun n => !n.deleting && n.stage == "claim")).filterMap (fun n =>
-          if (!honor || (nodeSelectorOK (nodeLabels s n) a.pod.nodeSelector && requiredOK (nodeLabels s n) a.pod.required)) &&
-             (!honorT || (untolerated a.pod.tolerations (nodeTaints s n)).isNone) then (nodeLabels s n).lookup k else none)
-        let numDomains := (elig ++ inflight).eraseDups.length
-        let minNow := match c.minDomains with
-          | some md => if numDomains < md then 0 else minNow
-          | none => minNow
-        let skewNow := count d false - minNow
-        -- the skew that was already there before this pass is not the scheduler's doing
-        let minOld := match elig.map (fun dd => count dd true) with
-          | [] => 0
-          | x :: xs => xs.foldl min x
-        let skewOld := count d true - minOld
-        -- Kubernetes counts every pod the selector matches, but only constrains the pods that carry the constraint: matching
-        -- pods that this pass put into `d` WITHOUT the same constraint, or with another node selector / affinity (their own skew
-        -- is computed over other eligible domains), may have arrived after `a` and are slack
-        let sibling (b : Placed) : Bool := carries a.pod b c && toString (repr b.pod.nodeSelector) == toString (repr a.pod.nodeSelector) &&
-          toString (repr b.pod.required) == toString (repr a.pod.required) &&
-          toString (repr b.pod.tolerations) == toString (repr a.pod.tolerations)
-        let slack := (all.filter (fun b => b.isNew && spreadMatches a.pod c b.pod && !sibling b && domains s b k == [d])).length
-        if skewNow > max c.maxSkew skewOld + slack then
-          -- CLASSIFIES (never excuses): the pod has several OR-ed required node-affinity terms. Karpenter schedules it as if it
-          -- had only the term it is currently trying (the first, or a later one after relaxation) and computes the global
-          -- minimum over that term's domains only, while every node matching ANY term counts for the kube-scheduler.
-          let tag := if honor && a.pod.required.length ≥ 2 then "spread-or-terms" else "spread"
-          some s!"{tag}: domain {d} of {a.pod.name} has {count d false} matching pods, minimum over {elig} is {minNow}: skew {skewNow} > maxSkew {c.maxSkew}"
-        else none
+        match spreadExcess s all a c d a.pod.required a.pod.required with
+        | none => none
+        | some (cnt, elig, minNow, skewNow) =>
+          -- CLASSIFIES (never excuses): the pod has several OR-ed required node-affinity terms t1 … tn.  Karpenter schedules it
+          -- as if it had only the term it is currently trying: with i terms relaxed away its node filter reads t(i+1) … tn
+          -- (the nodes that count), and the global minimum is taken over the domains of t(i+1) alone, while every node matching
+          -- ANY term counts for the kube-scheduler.  The violation is THAT finding only if it disappears under such a reading
+          -- for a term that admits the pod's own placement; a violation that stays under every such reading (e.g. because
+          -- Karpenter's node filter does not read the terms as a disjunction at all) is a plain spread violation.
+          -- The end state does not say which pod of `d` arrived last: the pod Karpenter misjudged may be `a` or any pod this
+          -- pass put into `d` that carries the same constraint, so each of them is re-judged.
+          let honor := c.nodeAffinityHonor.getD true
+          let excused (b : Placed) : Bool := b.pod.required.length ≥ 2 &&
+            (suffixes b.pod.required).any (fun sfx =>
+              match sfx with
+              | [] => false
+              | t :: _ => placeAdmits s b [t] && (spreadExcess s all b c d sfx [t] true).isNone)
+          let orTerms := honor && (excused a ||
+            all.any (fun b => b.isNew && b.pod.name != a.pod.name && carries s a.pod b c && domains s b k == [d] && excused b))
+          let tag := if orTerms then "spread-or-terms" else "spread"
+          some s!"{tag}: domain {d} of {a.pod.name} has {cnt} matching pods, minimum over {elig} is {minNow}: skew {skewNow} > maxSkew {c.maxSkew}"
       | [] => some s!"spread: {a.pod.name} is on a node without label {k}"
       | _ => some s!"spread: the domain of {a.pod.name} on {k} is still undetermined after the pass"))))
+
+/-- required anti-affinity terms carried by pods that were already RUNNING (the inverse direction only) -/
+def runningCarriersOK (s : Scenario) (out : Outcome) : Option String :=
+  antiAffinityOK s (placements s out) (fun a => !a.isNew)
 
 def outcomeOK (s : Scenario) (out : Outcome) : Option String :=
   let all := placements s out
